@@ -4,7 +4,7 @@ import itertools
 import numpy as np
 
 from vf import instrument as I
-from vf.core import CaseTimeout, digest, time_limit
+from vf.core import CaseTimeout, CpuBudgetExceeded, cpu_budget, digest
 from vf.gen import ALL_KINDS, gen_data
 from vf.models.wellformed import problems
 from vf.spec import S, build, short
@@ -14,6 +14,10 @@ SHARDS = {"quick": 16, "thorough": 16}
 WATCHDOG = {"quick": 1800, "thorough": 10800}
 ZOO_CASES = {"quick": 100, "thorough": 1500}
 DEGENERATE_CASES = {"quick": 120, "thorough": 1500}
+# 'does not run to completion' is decided in virtual time (CPU seconds of the process), never by the
+# wall clock: a busy machine must not turn a slow case into a verdict (vf/core.cpu_budget)
+CPU_BUDGET = 120
+CPU_BUDGET_SMALL = 40
 FLOORS = {
     "quick": {"distinct_nontrivial": 15000, "grid_valid_completed": 1200, "grid_invalid_rejected": 15000,
               "zoo_completed": 630, "nan_cases": 10000},
@@ -43,7 +47,7 @@ RULE = (
     "configurations (user-defined scorers included) x 17 data kinds must run to completion; (iii) "
     "threshold-based detectors with a tuned (or zero) threshold on flat / piecewise-flat data of values "
     "that are not exactly representable (scores and tuned thresholds zero up to rounding, i.e. possibly "
-    "slightly negative) must run to completion within 20 s (n <= 50); (iv) zoo configurations on finite "
+    "slightly negative) must run to completion within 40 s of CPU time (n <= 50; they take well under 5 s); (iv) zoo configurations on finite "
     "data of extreme magnitude (x 1e100..1e300, x 1e-100..1e-310, offsets 1e8..1e15, mixed) likewise. "
     "Non-trivial = boundary-valued grid point (any parameter at the edge of its domain or n within 1 "
     "of the minimum); distinct by recipe digest."
@@ -63,7 +67,7 @@ GRID = {
     "PELT": dict(cost=[None, L2, GV, GC], penalty_scale=[-1.0, 0.0, 0.5, 2.0], min_segment_length=[0, 1, 2, 5]),
     "SeededBinarySegmentation": dict(change_score=[None, L2, GV], threshold_scale=[-0.5, 0.0, 1.0, None],
                                      min_segment_length=[0, 1, 3], max_interval_length=["2m-1", "2m", "2m+1", 50],
-                                     growth_factor=[1.0, 1.0001, 1.5, 2.0, 2.01]),
+                                     growth_factor=[0, 0.5, 1.0, 1.0001, 1.5, 2.0, 2.01]),
     "MovingWindow": dict(change_score=[None, L2, GV], bandwidth=[0, 1, 2, 5],
                          threshold_scale=[-1.0, 0.0, 1.0, None]),
     "CAPA": dict(collective_saving=[None, S("L2Cost", param=0.0), S("GaussianVarCost", param={"tuple": [0.0, 1.0]})],
@@ -74,7 +78,7 @@ GRID = {
                    min_segment_length=[1, 2, 4], max_segment_length=["m-1", "m", "m+5"]),
     "CircularBinarySegmentation": dict(anomaly_score=[None, GV], threshold_scale=[-0.5, 0.0, 1.0, None],
                                        min_segment_length=[0, 1, 2], max_interval_length=["2m-1", "2m", "2m+1", 20],
-                                       growth_factor=[1.0, 1.5, 2.0, 2.01]),
+                                       growth_factor=[0.0, 0.5, 1.0, 1.5, 2, 2.01]),
     "StatThresholdAnomaliser": dict(change_detector=[S("MovingWindow", bandwidth=1, threshold_scale=0.5),
                                                      S("MovingWindow", bandwidth=3), S("PELT", min_segment_length=1)],
                                     bounds=[(-1.0, 1.0), (0.0, 0.0), (1.0, -1.0), (0.5, 0.4999)]),
@@ -171,7 +175,7 @@ def run_pipeline(spec, Xfit, Xpred):
         stage = "predict"
         y = det.predict(Xpred)
         return "completed", None, det, y
-    except CaseTimeout:
+    except (CaseTimeout, CpuBudgetExceeded):
         raise
     except ValueError as ex:
         return f"ValueError@{stage}", str(ex), None, None
@@ -204,10 +208,13 @@ def grid_case(ctx, r):
     sub = f"grid-{name}"
     I.drain()
     try:
-        with time_limit(60):
+        with cpu_budget(CPU_BUDGET):
             outcome, msg, det, y = run_pipeline(spec, Xfit, Xpred)
+    except CpuBudgetExceeded:
+        ctx.violation(sub, "did-not-complete", f"{label}: no outcome within {CPU_BUDGET} s of CPU time", r)
+        return
     except CaseTimeout:
-        ctx.violation(sub, "did-not-complete", f"{label}: no outcome within 60 s", r)
+        ctx.stat("wall_clock_watchdog_fired")  # busy machine: no verdict
         return
     hits = I.drain()
     data_invalid = []
@@ -295,10 +302,13 @@ def zoo_case(ctx, r):
     sub = f"zoo-{name}"
     I.drain()
     try:
-        with time_limit(90):
+        with cpu_budget(CPU_BUDGET):
             outcome, msg, det, y = run_pipeline(spec, data, data)
+    except CpuBudgetExceeded:
+        ctx.violation(sub, "did-not-complete", f"{label}: no outcome within {CPU_BUDGET} s of CPU time", r)
+        return
     except CaseTimeout:
-        ctx.violation(sub, "did-not-complete", f"{label}: no outcome within 90 s", r)
+        ctx.stat("wall_clock_watchdog_fired")
         return
     hits = I.drain()
     if outcome == "completed":
@@ -397,11 +407,15 @@ def degenerate_case(ctx, r):
     sub = f"zoo-{name}"
     I.drain()
     try:
-        with time_limit(20), np.errstate(all="ignore"):
+        with cpu_budget(CPU_BUDGET_SMALL), np.errstate(all="ignore"):
             outcome, msg, det, y = run_pipeline(spec, data, data)
-    except CaseTimeout:
-        ctx.violation(sub, "did-not-complete", f"{label}: no outcome within 20 s (n = {n})", r)
+    except CpuBudgetExceeded:
+        ctx.violation(sub, "did-not-complete", f"{label}: no outcome within {CPU_BUDGET_SMALL} s of CPU time "
+                      f"(n = {n}; such cases complete in well under 5 s)", r)
         return False
+    except CaseTimeout:
+        ctx.stat("wall_clock_watchdog_fired")
+        return True
     hits = I.drain()
     if outcome == "completed":
         ctx.stat("degenerate_completed")
